@@ -122,6 +122,15 @@ impl Engine for SdkClients {
         }
         out
     }
+    /// KF-C20-1 can only arise when consumer instances share one client connection (the unmasked mode):
+    /// the tag keeps its signature from absorbing failures of runs in which every instance has its own
+    fn context_tags(&self, p: &Params) -> Vec<String> {
+        if p.masked("KF-C20-1") {
+            vec![]
+        } else {
+            vec!["conn:shared-by-consumer-instances".into()]
+        }
+    }
     fn rule(&self, _p: &Params) -> String {
         "case = producer settings (batch size none/1/3/100, send interval none/1 ms, partitioning balanced / partition id / key) + a generated list of calls (send n, send_one, send_with_partitioning(explicit partition), send_to(another topic)) + consumer settings (partition, batch size 1..49, one of 8 auto-commit modes, polling next / offset(0) / first) + a list of stop points at which the consumer is dropped and re-created with the same identity; oracle: server-side full reads show every produced message exactly once in exactly the addressed stream/topic(/partition); each consumer instance yields strictly increasing offsets without holes from its start; all instances together yield every message of the partition; the server-side committed offset never exceeds what was fetched and, in the commit-on-consumption modes, what was yielded; with 'next' polling a re-created consumer starts right after the committed offset; non-trivial = >=1 send_to or explicit-partition call, or >=1 consumer re-creation after >=1 yielded message".into()
     }
